@@ -96,7 +96,9 @@ def cfg_C01(tier, rng):
                  + shipped(need=lambda c: any(t['gk'] == 'oracle' for t in c['trans']), max_oracle=6),
                  consts=dict(MaxQ=1, MaxLevel=6 if tier == QUICK else 8),
                  variants=[dict(variant='api', pool='chars'), dict(variant='api_edit', pool='chars')],
-                 jobs_for=(lambda ci, h, r: [dict(variant=('api', 'api_edit')[(ci + len(h)) % 2], pool='chars')]) if tier == QUICK else None,
+                 # (the nested bundles, charts k+1 .., are always replayed on the statechart built through the editing API too)
+                 jobs_for=(lambda ci, h, r: [dict(variant='api', pool='chars'), dict(variant='api_edit', pool='chars')] if ci > k
+                           else [dict(variant=('api', 'api_edit')[(ci + len(h)) % 2], pool='chars')]) if tier == QUICK else None,
                  random=dict(count=150 if tier == QUICK else 1500, length=12,
                              family=lambda r, kk: gc.family_f3(r, kk, nmin=5, nmax=9))),
             # the same guard text on several transitions whose values differ (time predicates relative to the source)
@@ -632,6 +634,7 @@ def run_stage(prop, tier, seed, stage, rng):
         raise Machinery('%d recorded lines got no verdict from the trace spec (first uid %d)' % (len(missing), missing[0]))
     out['lines_evaluated'] = len(alluids)
     viol, cross, divs = [], Counter(), 0
+    crossv = []
     seen = set()
     divsamples = []
     for t in traces:
@@ -657,6 +660,10 @@ def run_stage(prop, tier, seed, stage, rng):
                 mine.append([ln + 1, prop, 'returns'])
             if mine:
                 viol.append((dict(t, hist=t['hist'][:ln + 1], lines=t['lines'][:ln + 1]), mine, r))
+            elif len(crossv) < 40 and any(b[0] != prop for b in r['bad']):
+                crossv.append((dict(t, hist=t['hist'][:ln + 1], lines=t['lines'][:ln + 1]),
+                               [[ln + 1, b[0], b[1]] for b in r['bad'] if b[0] != prop], r))
+    out['cross_samples'] = crossv
     out['skipped_after_hangs'] = sum(1 for t in traces if t.get('skipped'))
     out['divergences'] = divs
     out['divergence_samples'] = divsamples
@@ -678,6 +685,7 @@ def main(prop, tier, seed, replay_path=None):
     cov = dict(states=0, transitions=0, traces_validated_against_impl=0, samples=[], stages=[],
                exhaustive=False, edges_replayed=0)
     nviol = 0
+    ncross = 0
     known = 0
     lines_out = []
     try:
@@ -704,6 +712,18 @@ def main(prop, tier, seed, replay_path=None):
                     lines_out.append('VIOLATION property=%s replay=%s' % (prop, path))
                     lines_out.append('  clauses=%s chart#%d variant=%s' % (
                         sorted({b[2] for b in mine}), t['ci'], t['kw']))
+            # a clause of ANOTHER listed property failed on a real execution while this one was being checked: that is a
+            # violation of that property all the same; it is reported under its own id
+            for (t, theirs, r) in out.pop('cross_samples', []):
+                ncross += 1
+                if ncross <= 3:
+                    other = theirs[0][1]
+                    doc = {'property': other, 'chart': allcharts[t['ci'] - 1], 'hist': t['hist'], 'kw': t['kw'],
+                           'failing': theirs, 'lines': t['lines'], 'observed_by': prop}
+                    path = evd.write_replay(prop, 50 + ncross, doc)
+                    lines_out.append('VIOLATION property=%s replay=%s' % (other, path))
+                    lines_out.append('  clauses=%s chart#%d variant=%s (observed while checking %s)' % (
+                        sorted({'%s.%s' % (b[1], b[2]) for b in theirs}), t['ci'], t['kw'], prop))
             if out['model_violations'] and not viol:
                 raise Machinery('the operational model violates %s on an input the real code handles '
                                 'correctly: the model misrepresents the code (see %s)' % (prop, mc['dir']))
@@ -753,19 +773,20 @@ def main(prop, tier, seed, replay_path=None):
                    'replayed on the real Interpreter and the recorded trace is evaluated by TLC '
                    '(spec/SismicTrace.tla) against the declarative formulas of spec/Props.tla')
     cov['known_findings_reproduced'] = known
+    cov['violations_of_other_properties'] = ncross
     for f in evd.open_findings(prop):
         if known:
             print('KNOWN-FINDING: property=%s %s' % (prop, f.get('what', f.get('id'))))
     for ln in lines_out:
         print(ln)
-    evd.write_evidence(prop, tier, seed, cov, time.time() - t0, nviol,
+    evd.write_evidence(prop, tier, seed, cov, time.time() - t0, nviol + ncross,
                        assumptions=['TLC and the CommunityModules', 'harness/realize.py builds the chart it is given',
                                     'probes injected through initial_context report honestly',
                                     'bounds: see stages[].consts'])
     print('%s %s: %d charts-stages, %d states, %d edges replayed, %d traces validated, %d violations, %.1fs' % (
         prop, tier, len(stages), cov['states'], cov['edges_replayed'], cov['traces_validated_against_impl'],
-        nviol, time.time() - t0))
-    return 1 if nviol else 0
+        nviol, time.time() - t0) + (' (+%d of other properties)' % ncross if ncross else ''))
+    return 1 if (nviol or ncross) else 0
 
 
 def match_finding(findings, doc):
@@ -790,8 +811,9 @@ def replay_file(prop, path):
             allbad.append([ln + 1, prop, 'returns'])
     print(json.dumps({'failing': allbad}))
     r = {'bad': [b[1:] for b in allbad]}
-    mine = [b for b in (r['bad'] if r else []) if b[0] == prop]
+    want = doc.get('property', prop)
+    mine = [b for b in (r['bad'] if r else []) if b[0] == want]
     if mine:
-        print('VIOLATION property=%s replay=%s' % (prop, path))
+        print('VIOLATION property=%s replay=%s' % (want, path))
         return 1
     return 0
